@@ -39,6 +39,7 @@ fn counts() -> [usize; model::POOL] {
 // including the value already stored (same value again) and A-B-A (x2 == initial).
 // @harness name=c16_cache_load props=C16 tier=quick flavour=nostd timeout=2400 fn=Cache::new+Cache::load+Cache::revalidate
 #[cfg_attr(kani, kani::proof)]
+#[cfg_attr(kani, kani::stub(crate::debt::Debt::pay_all, crate::debt::verif_h::pay_all_stub))]
 #[cfg_attr(kani, kani::unwind(12))]
 pub(crate) fn c16_cache_load() {
     hy::fresh_ledger();
@@ -108,6 +109,7 @@ fn project(t: &TP) -> &usize {
 // MapCache::load = the projection applied, once, to exactly the value Cache::load returns.
 // @harness name=c16_map_cache props=C16 tier=quick flavour=nostd timeout=2400 fn=MapCache::load+Cache::map
 #[cfg_attr(kani, kani::proof)]
+#[cfg_attr(kani, kani::stub(crate::debt::Debt::pay_all, crate::debt::verif_h::pay_all_stub))]
 #[cfg_attr(kani, kani::unwind(12))]
 pub(crate) fn c16_map_cache() {
     hy::fresh_ledger();
